@@ -527,6 +527,18 @@ impl ABuilder {
                 }
                 Arc::new(AsyncAltrootFS::new(root))
             }
+            Cfg::Sub(inner, p, exists) => {
+                let first = self.bases.len();
+                let s = self.node(inner, &format!("{}.0", id), upper);
+                let dir = s.join(&p[1..]).expect("HARNESS: sub path");
+                if *exists {
+                    block_on(dir.create_dir_all()).expect("HARNESS: create sub directory");
+                }
+                for b in &mut self.bases[first..] {
+                    b.prefix = format!("{}{}", b.prefix, p);
+                }
+                return dir;
+            }
             Cfg::Ov(layers) => {
                 let mut roots = vec![];
                 for (i, l) in layers.iter().enumerate() {
